@@ -41,6 +41,9 @@
 static int c14_final_super(const void *buf);
 #include "C14/c14_env.h"
 #include "C14/c14_libc.h"
+#ifdef C13_CHECKS
+#include "C13/c13_alloc.h"
+#endif
 #include "simple_writer.h"
 #include "common.h"
 
@@ -163,8 +166,10 @@ int sqfs_serialize_fstree(const char *filename, sqfs_writer_t *wr)
 	(void)filename;
 	VERIF_ASSERT(wr == &g_wr, "C14.finish.stage_args");
 	wr->super.inode_table_start = lo;	/* as the real code: before any I/O */
-	if (!stage_body(ST_TREE, "tree", true))
+	if (!stage_body(ST_TREE, "tree", true)) {
+		g_diag += 1;	/* prints "storing filesystem tree" itself */
 		return -1;
+	}
 	wr->super.root_inode_ref = verif_nd_u64("root_ref");
 	/* recorded after the inode table went out; the directory table itself
 	 * may be empty (root without entries), so the start may equal the size
@@ -362,6 +367,13 @@ void harness(void)
 	}
 	if (g_super_writes)
 		VERIF_ASSERT(g_super_writes == 1, "C14.finish.super_once");
+#ifdef C13_CHECKS
+	/* ---- C13: fail-stop ------------------------------------------------ */
+	VERIF_ASSERT(!g_fault || ret != 0, "C13.finish.propagates");
+	VERIF_ASSERT(ret == 0 || g_diag >= 1, "C13.finish.diagnostic");
+	VERIF_ASSERT(ret == 0 || g_fault, "C13.finish.fails_only_on_fault");
+	VERIF_COVER(ret != 0 && g_alloc_faults == 1 && !g_stage_failed && !g_super_fail);
+#endif
 	VERIF_COVER(ret == 0 && g_nwrite == 1 && cfg.exportable && !cfg.no_xattr);
 	VERIF_COVER(ret == 0 && g_nwrite == 0 && !cfg.exportable && cfg.no_xattr);
 	VERIF_COVER(ret == 0 && !cfg.quiet);
